@@ -1,4 +1,6 @@
 import TrionModel.Lemmas.ParseAll
+import TrionModel.Lemmas.ParseIterAll
+import TrionModel.Props.C10
 /-!
 # C10 (parser clauses) — the parser is total on whatever the tokenizer yields
 
@@ -18,7 +20,8 @@ theorem parse_total (lo : LexOut) : all lo ≠ .panic ∧ all lo ≠ .fuel :=
 /-- C10.parse_shape  What the parser yields is a finite list of ok elements followed by at most one
 error, after which nothing is produced (in the model this is the shape of `Outcome.done`; the
 correspondence run checks on the real `Parser` that `next()` keeps returning `None` after the error
-and after the end). -/
+and after the end). This is the batch view; the iterator itself — its state after an error included —
+is `next_shape` / `next_refines_all` below. -/
 theorem parse_shape (lo : LexOut) : ∃ els err, all lo = .done els err := by
   have h := parse_total lo
   cases hall : all lo with
@@ -42,5 +45,111 @@ theorem parse_sees_lex_error (lo : LexOut) (e : LexErr) (he : lo.err = some e) :
 example : ∃ pe, all ⟨[], some ⟨1, 1, .badString⟩, 1, 1⟩ = .done [] (some pe) := ⟨_, rfl⟩
 /-- non-vacuity: `x :` is a label -/
 example : ∃ el, all ⟨[⟨1, 1, .ident [120]⟩, ⟨1, 3, .labelMark⟩], none, 1, 4⟩ = .done [el] none := ⟨_, rfl⟩
+
+/-! ## The iterator, call by call
+
+`Parse.next` (`Model/ParseIter.lean`) is `impl Iterator for Parser { fn next }` on the tokenizer state
+with its look-ahead queue and pending error; after an error it does what the code does since fix F23:
+`clear()` — which leaves the look-ahead in place — and then the drain loop. `calls n s` are the results of
+`n` successive calls (`none` = `None`) and the state afterwards; it is `none` if a call panics. -/
+
+/-- C10.next_refines_all  The items produced by calling `next()` repeatedly on `Parser::new(bytes)` are
+exactly `Parse.all`'s elements in order, then its error if there is one, and from then on `None` —
+for ANY number `k` of further calls — and the tokenizer inside ends up with nothing left (empty
+look-ahead, no pending error, no text). So every theorem about `Parse.all` (C09 round trips, C12
+positions, `parse_total`, `parse_sees_lex_error`) is a theorem about the iterator. -/
+theorem next_refines_all (lo : LexOut) (els : List Element) (err : Option ParseErr) (h : all lo = .done els err)
+    (k : Nat) :
+    ∃ sf, sf.finished ∧ calls (els.length + 1 + k) (TState.init lo) =
+      some (els.map (fun e => some (.ok e)) ++ [err.map .error] ++ List.replicate k none, sf) :=
+  calls_allLoop lo k _ _ _ els err (rel_init lo) h
+
+/-- C10.next_total (no panic)  No call of `next()` panics — neither the operator-group `panic!` nor the
+`self.0.next().unwrap().unwrap_err()` sites after a peeked error — and the model's fuel never runs out:
+for every token stream and every number of calls, `calls` has a value. -/
+theorem next_total (lo : LexOut) (n : Nat) : ∃ items s, calls n (TState.init lo) = some (items, s) := by
+  obtain ⟨els, err, h⟩ := parse_shape lo
+  obtain ⟨sf, _, hc⟩ := next_refines_all lo els err h n
+  rw [show els.length + 1 + n = n + (els.length + 1) by omega] at hc
+  obtain ⟨s', hs'⟩ := calls_prefix hc
+  exact ⟨_, s', hs'⟩
+
+/-- C10.next_total (termination measure)  From every state a run can reach, one call either yields an
+item and strictly decreases the number of items the tokenizer can still produce (`TState.size`), or
+yields `None`, on a tokenizer that has nothing left, and changes nothing. It never panics. -/
+theorem next_progress_reach (lo : LexOut) (s : TState) (h : Reach lo s) :
+    match next s with
+    | .item _ s' => Reach lo s' ∧ s'.size < s.size
+    | .done s' => s' = s ∧ s.finished
+    | .panic => False
+    | .fuel => False := next_progress h
+
+/-- … and the initial state of a parser is reachable -/
+theorem reach_new (lo : LexOut) : Reach lo (TState.init lo) := reach_init lo
+
+/-- C10.next_total on arbitrary bytes: the tokenizer run on any byte string is a `LexOut` (`lex_total`),
+and on it no number of parser calls panics. -/
+theorem next_total_bytes (bs : Bytes) :
+    ∃ o, Lex.tokens bs = .ok o ∧ ∀ n, ∃ items s, calls n (TState.init o) = some (items, s) := by
+  obtain ⟨o, ho⟩ := Lex.lex_total bs
+  exact ⟨o, ho, fun n => next_total o n⟩
+
+/-- C10.next_shape  In the sequence of results of any number `n` of `next()` calls: once a call has
+returned something other than `Some(Ok(_))` — an error or `None` — every later call returns `None`.
+Hence at most one item is an error, it is the last item, and after an error or the end nothing further
+is produced. -/
+theorem next_shape (lo : LexOut) (n : Nat) (items : List (Option (Except ParseErr Element))) (s : TState)
+    (h : calls n (TState.init lo) = some (items, s)) (i j : Nat) (hij : i < j) (hj : j < items.length)
+    (hi : ∀ el, items[i]? ≠ some (some (.ok el))) : items[j]? = some none := by
+  obtain ⟨els, err, hall⟩ := parse_shape lo
+  obtain ⟨sf, _, hc⟩ := next_refines_all lo els err hall n
+  rw [show els.length + 1 + n = n + (els.length + 1) by omega] at hc
+  obtain ⟨s', hs'⟩ := calls_prefix hc
+  rw [h] at hs'
+  simp only [Option.some.injEq, Prod.mk.injEq] at hs'
+  have hitems := hs'.1
+  have hlen : items.length ≤ n := by rw [hitems]; simp [List.length_take]; omega
+  -- `i` is not among the ok elements
+  have hige : els.length ≤ i := by
+    apply Nat.le_of_not_lt
+    intro hlt
+    apply hi els[i]
+    rw [hitems, List.getElem?_take]
+    simp only [show i < n by omega, if_true]
+    rw [List.append_assoc, List.getElem?_append_left (by simpa using hlt)]
+    simp [hlt]
+  rw [hitems, List.getElem?_take]
+  simp only [show j < n by omega, if_true]
+  rw [List.getElem?_append_right (by simp; omega)]
+  have hjn : j - (els.length + 1) < n := by omega
+  simp [hjn]
+
+/-- C10.next_sees_lex_error  The iterator never reports success for a text the tokenizer rejects: if the
+token stream ends in a tokenizer error, the calls yield some elements, then an error, then `None` for
+ever. -/
+theorem next_sees_lex_error (lo : LexOut) (e : LexErr) (he : lo.err = some e) :
+    ∃ (els : List Element) (pe : ParseErr), ∀ k, ∃ sf, sf.finished ∧ calls (els.length + 1 + k) (TState.init lo) =
+      some (els.map (fun e => some (.ok e)) ++ [some (.error pe)] ++ List.replicate k none, sf) := by
+  obtain ⟨els, pe, h⟩ := parse_sees_lex_error lo e he
+  exact ⟨els, pe, fun k => next_refines_all lo els (some pe) h k⟩
+
+/-! ### non-vacuity, and why the shape is not true by construction -/
+
+/-- `a b c ;` — the statement `a b` fails at `c` (`expected <operator>, got identifier`) while `c` sits in
+the look-ahead queue: `clear()` alone leaves it there (the defect F23: the next call would have parsed
+`c ;` as a statement) … -/
+example : ∃ e s2,
+    doNextS (.ok ⟨1, 1, .ident [97]⟩)
+      ⟨[], none, [⟨1, 3, .ident [98]⟩, ⟨1, 5, .ident [99]⟩, ⟨1, 6, .term⟩], none, 1, 7⟩ = .err e s2 ∧
+    s2.clear.queue = [⟨1, 5, .ident [99]⟩] ∧ s2.clear ≠ ⟨[], none, [], none, 1, 7⟩ :=
+  ⟨_, _, rfl, rfl, by decide⟩
+
+/-- … and the drain loop is what empties it: three calls yield the error and then `None`, `None`. -/
+example : ∃ e, calls 3 (TState.init ⟨[⟨1, 1, .ident [97]⟩, ⟨1, 3, .ident [98]⟩, ⟨1, 5, .ident [99]⟩, ⟨1, 6, .term⟩], none, 1, 7⟩) =
+    some ([some (.error e), none, none], ⟨[], none, [], none, 1, 7⟩) := ⟨_, rfl⟩
+
+/-- two statements and the end: `x : N ;` -/
+example : ∃ e1 e2, calls 4 (TState.init ⟨[⟨1, 1, .ident [120]⟩, ⟨1, 3, .labelMark⟩, ⟨2, 5, .ident [78]⟩, ⟨2, 6, .term⟩], none, 2, 7⟩) =
+    some ([some (.ok e1), some (.ok e2), none, none], ⟨[], none, [], none, 2, 7⟩) := ⟨_, _, rfl⟩
 
 end Trion.Parse
